@@ -14,6 +14,10 @@ package main
 //	badconf     registrar config is not TOML                     (loadConfig fails)
 //	nocc        the ClientConf named by the config is missing    (loadConfig fails)
 //	badcc       the ClientConf is not a protobuf                 (loadConfig fails)
+//	emptysubnets  the phantom subnet file parses but defines no usable generation (0 bytes / no
+//	            Networks table / empty table / truncated mid-table): the unchanged tree installs it and
+//	            answers 500 quickly until the next good reload; keeping the old set is accepted too.
+//	            What matters: every request completes and later reloads complete
 //
 // Oracle: after a valid step registrations are eventually answered from the new set. "Never" is only
 // concluded after c13hPatience with SIGHUP re-sent several times while the process is otherwise
@@ -61,7 +65,19 @@ const (
 	c13hLogWait    = 1 * time.Second  // bounded wait for the failure log line after a failing step (no verdict)
 )
 
-var c13hKinds = []string{"valid", "badsubnets", "nosubnets", "badconf", "nocc", "badcc"}
+var c13hKinds = []string{"valid", "badsubnets", "nosubnets", "badconf", "nocc", "badcc", "emptysubnets"}
+
+// subnet files that are valid TOML but define no usable generation (what a reload sees while the
+// file is being rewritten). The unchanged tree installs them and refuses registrations until the next
+// good reload; refusing the file and keeping the old set is accepted as well.
+var c13hEmptyFiles = []string{
+	"",
+	"# being rewritten\ntitle = \"phantom subnets\"\n",
+	"[Networks]\n",
+	"[Networks]\n    [Networks.1]\n        Generation = 1\n        [[Networks.1.WeightedSubnets]]\n            Weight = 1\n",
+}
+
+const c13hRefused = int64(-3) // "set" of a registration that was refused while an empty file may be in force
 
 type c13hCase struct {
 	Steps []string `json:"steps"` // the whole history since the registrar was started
@@ -106,6 +122,10 @@ type c13hSrv struct {
 	client                                     *http.Client
 	fatal                                      atomic.Value // string: main() called log.Fatal
 	mainDone                                   chan struct{}
+
+	mayEmpty     atomic.Bool  // a file without usable generations was offered and no good reload was seen since
+	refusedEmpty atomic.Int64 // registrations refused (HTTP 500) while mayEmpty
+	emptyN       atomic.Int64
 
 	seq       atomic.Int64 // newest set written to the subnet file
 	confirmed atomic.Int64 // newest set the registrar was seen answering from after its step
@@ -260,6 +280,7 @@ func (s *c13hSrv) register(kind string) (set int64, key, msg string) {
 // registerGen: the same for a client that is on decoy-list generation gen.
 func (s *c13hSrv) registerGen(kind string, gen uint32) (set int64, key, msg string) {
 	n := s.reqN.Add(1)
+	emptyBefore := s.mayEmpty.Load()
 	tr := pb.TransportType_Min
 	secret := make([]byte, 32)
 	binary.BigEndian.PutUint64(secret, uint64(n))
@@ -283,6 +304,12 @@ func (s *c13hSrv) registerGen(kind string, gen uint32) (set int64, key, msg stri
 	raw, err := io.ReadAll(resp.Body)
 	if err != nil {
 		return -1, "transport", err.Error()
+	}
+	if resp.StatusCode == http.StatusInternalServerError && (emptyBefore || s.mayEmpty.Load()) {
+		// a subnet file that defines no usable generation may be in force: the registrar refuses
+		// registrations (quickly) until the next good reload - that is how they complete then
+		s.refusedEmpty.Add(1)
+		return c13hRefused, "", ""
 	}
 	if resp.StatusCode != http.StatusOK {
 		return -1, "status", fmt.Sprintf("a valid %s registration was answered with HTTP %d %q", kind, resp.StatusCode, raw)
@@ -402,6 +429,10 @@ func (s *c13hSrv) step(kind string, prevFailed bool) (v *c13hViol, harness strin
 		if err = os.Remove(s.subnetPath); os.IsNotExist(err) {
 			err = nil
 		}
+	case "emptysubnets":
+		s.mayEmpty.Store(true)
+		err = c13hWrite(s.subnetPath, []byte(c13hEmptyFiles[int(s.emptyN.Add(1))%len(c13hEmptyFiles)]))
+		expectLog = ""
 	case "badconf":
 		err = c13hWrite(s.confPath, []byte("api_port = = [[ not toml\n"))
 		expectLog, before = "error occurred while reloading config", nConf
@@ -438,7 +469,11 @@ func (s *c13hSrv) step(kind string, prevFailed bool) (v *c13hViol, harness strin
 			}
 			if set == want {
 				s.confirmed.Store(want)
+				s.mayEmpty.Store(false)
 				return nil, "", classes
+			}
+			if set == c13hRefused {
+				set = old // still refused by the empty set: keep waiting for the new one
 			}
 			if set != old && set != want {
 				// cannot happen with monotonic set numbers unless a stale file was loaded
@@ -459,13 +494,30 @@ func (s *c13hSrv) step(kind string, prevFailed bool) (v *c13hViol, harness strin
 
 	// a failing step: give the handler a bounded moment to report (auxiliary, decides nothing), then
 	// the registrar must keep answering from the old set - before, during and after the failed reload.
-	classes = append(classes, "failed:"+kind)
-	deadline := time.Now().Add(c13hLogWait)
-	for s.logs.count(expectLog) == before && time.Now().Before(deadline) {
-		time.Sleep(2 * time.Millisecond)
-	}
-	if s.logs.count(expectLog) > before {
-		classes = append(classes, "failure-reported")
+	if kind == "emptysubnets" {
+		classes = append(classes, "empty-file-offered")
+		// auxiliary: a bounded moment for the reload to happen (decides nothing)
+		n0 := s.refusedEmpty.Load()
+		for dl := time.Now().Add(c13hLogWait); time.Now().Before(dl) && s.refusedEmpty.Load() == n0; time.Sleep(2 * time.Millisecond) {
+			if set, key, msg := s.register("dual"); key != "" {
+				v, h := s.judge("after a reload step with a subnet file that defines nothing", key, msg)
+				return v, h, classes
+			} else if set != old && set != c13hRefused {
+				return &c13hViol{"sighup:failed-reload-changed-set", fmt.Sprintf("after a reload step with a subnet file that defines nothing registrations are answered from set %d (old set %d)", set, old)}, "", classes
+			}
+		}
+		if s.refusedEmpty.Load() > n0 {
+			classes = append(classes, "refused-by-empty-set")
+		}
+	} else {
+		classes = append(classes, "failed:"+kind)
+		deadline := time.Now().Add(c13hLogWait)
+		for s.logs.count(expectLog) == before && time.Now().Before(deadline) {
+			time.Sleep(2 * time.Millisecond)
+		}
+		if s.logs.count(expectLog) > before {
+			classes = append(classes, "failure-reported")
+		}
 	}
 	for i := 0; i < 3; i++ {
 		set, key, msg := s.register([]string{"dual", "v4", "v6"}[i])
@@ -473,7 +525,7 @@ func (s *c13hSrv) step(kind string, prevFailed bool) (v *c13hViol, harness strin
 			v, h := s.judge("after a failing reload step ("+kind+")", key, msg)
 			return v, h, classes
 		}
-		if set != old {
+		if set != old && set != c13hRefused {
 			return &c13hViol{"sighup:failed-reload-changed-set", fmt.Sprintf("after a failing reload step (%s) registrations are answered from set %d instead of the old set %d", kind, set, old)}, "", classes
 		}
 	}
@@ -515,7 +567,7 @@ func TestVerif_C13_sighup(t *testing.T) {
 		}
 		hist = c.Steps
 	} else {
-		rec.Require("valid-after-failed", "valid-after-valid", "failed:badsubnets", "failed:nosubnets", "failed:badconf", "failed:nocc", "failed:badcc", "concurrent-requests")
+		rec.Require("valid-after-failed", "valid-after-valid", "failed:badsubnets", "failed:nosubnets", "failed:badconf", "failed:nocc", "failed:badcc", "empty-file-offered", "refused-by-empty-set", "concurrent-requests")
 		shard, _ := vh.Shard()
 		for _, x := range c13hDeBruijn(len(c13hKinds), vh.Pick(3, 4)) {
 			hist = append(hist, c13hKinds[x])
@@ -525,7 +577,7 @@ func TestVerif_C13_sighup(t *testing.T) {
 				hist[i], hist[j] = hist[j], hist[i]
 			}
 		}
-		tail := rapid.SliceOfN(rapid.SampledFrom([]string{"valid", "valid", "valid", "badsubnets", "nosubnets", "badconf", "nocc", "badcc"}), vh.Pick(100, 1000), vh.Pick(100, 1000)).
+		tail := rapid.SliceOfN(rapid.SampledFrom([]string{"valid", "valid", "valid", "badsubnets", "nosubnets", "badconf", "nocc", "badcc", "emptysubnets"}), vh.Pick(100, 1000), vh.Pick(100, 1000)).
 			Example(int(vh.Seed())*1000 + shard)
 		hist = append(hist, tail...)
 	}
@@ -567,7 +619,7 @@ func TestVerif_C13_sighup(t *testing.T) {
 					report(s.judge("request loop", key, msg))
 					return
 				}
-				if set < lo || set > hi {
+				if set != c13hRefused && (set < lo || set > hi) {
 					report(&c13hViol{"sighup:stale-set", fmt.Sprintf("request loop: a %s registration was answered from set %d although sets %d..%d were the ones installed or written while it ran", kind, set, lo, hi)}, "")
 					return
 				}
